@@ -37,7 +37,13 @@ package types
 //@ func CalcStartReInitDKGMessageHash
 //@   nosafety
 //@   pure
-//@   modifies $bufc
+//@   modifies $bufc, $bufWrites
+//@   prologue $bufWrites = 0
+// every participant and every message of the file is hashed (none is skipped): one write for the threshold, four per
+// participant, seven per message
+//@   loop 0 invariant[C20.hash.every] $bufWrites == 1 + 4 * ($i + 1)
+//@   loop 1 invariant[C20.hash.every] $bufWrites == 1 + 4 * len(msg.Participants) + 7 * ($i + 1)
+//@   assert@call Sum[C20.hash.every] $bufWrites == 1 + 4 * len(loc(msg).Participants) + 7 * len(loc(msg).Messages)
 //@   assert@call NewBuffer[C20.hash.covers] content(buf) == bytesof(loc(msg).DKGID)
 //@   assert@call Write#1[C20.hash.covers] content(arg0) == bytesof(fmtInt(loc(msg).Threshold))
 //@   assert@call Write#2[C20.hash.covers] content(arg0) == content(loc(p).NewCommPubKey)
